@@ -192,9 +192,44 @@ def absent_element_cases(rng, tier):
                 yield Case("ae%d" % idx, L, oracle=oracle, compare=False, meta={"dist": {"kind": "absent-element", "type": ty}})
 
 
+def failed_metadata_read_cases(rng, tier):
+    """a read of the metadata section that fails anywhere - at every cut position, and at every presence flag set to 2 - must
+    release what it had built exactly once (entries with and without values and defaults, of string, int and binary type)"""
+    reps = {"quick": 2, "thorough": 12, "search": 1}[tier]
+    idx = 0
+    for rep in range(reps):
+        tys = [STRING, 2, BINARY] if rep == 0 else [rng.choice(ALLTYPES) for _ in range(3)]
+        tmeta = []
+        for j, ty in enumerate(tys):
+            tmeta.append((b"entry%d" % j, ty, rand_elem(rng, ty), rand_elem(rng, ty) if j != 1 else None))
+        tmeta.append((b"novalue", rng.choice(ALLTYPES), None, None))
+        t = G.rand_table(rng, ncols=2, nslices=1, maxrows=3)
+        t["tmeta"] = tmeta
+        e = G.encode_table(t)
+        data = bytes(e.b)
+        first_slice = [f for f in e.fields if f[0] == "slicecols"][0][1]
+        end = max(first_slice - 4, 6)
+        cuts = list(range(5, end))
+        for lo in range(0, len(cuts), 12):
+            L = []; h = 1
+            for n in cuts[lo:lo + 12]:
+                L += ["in %d %s" % (h, hx(data[:n])), "session %d *" % h]; h += 1
+            idx += 1
+            yield Case("fm%d" % idx, L, compare=False, meta={"dist": {"kind": "failed-metadata-read", "what": "cut"}})
+        flags = [f for f in e.fields if f[0] in ("tflag", "dflag", "cflag")]
+        for lo in range(0, len(flags), 8):
+            L = []; h = 1
+            for (fk, off, fw, note) in flags[lo:lo + 8]:
+                b = bytearray(data); b[off] = 2
+                L += ["in %d %s" % (h, hx(bytes(b))), "session %d *" % h]; h += 1
+            idx += 1
+            yield Case("fm%d" % idx, L, compare=False, meta={"dist": {"kind": "failed-metadata-read", "what": "flag"}})
+
+
 def cases(rng, tier):
     yield from failed_constructor_cases(rng, tier)
     yield from absent_element_cases(rng, tier)
+    yield from failed_metadata_read_cases(rng, tier)
     n = {"quick": 300, "thorough": 6000, "search": 200}[tier]
     for i in range(n // 3):
         yield ledger_case("l%d" % i, rng, False)
